@@ -8,17 +8,24 @@ From JV Require Import Model.SbxGen.
 Open Scope list_scope.
 
 (* a callable object of the context: identity plus the two marker attributes the default
-   predicate reads (unsafe_callable set by @unsafe, alters_data by the Django convention) *)
-Record callable := mkCallable { c_id : nat; c_unsafe : bool; c_alters : bool }.
+   predicate reads (unsafe_callable set by @unsafe, alters_data by the Django convention);
+   [c_format]: the object is a bound str.format / str.format_map method (of a str or Markup),
+   wherever it came from — also when the host put it into the render data. *)
+Record callable := mkCallable { c_id : nat; c_unsafe : bool; c_alters : bool; c_format : bool }.
 
-Inductive cval := CVData (n : nat) | CVCallable (c : callable) | CVUndef.
+Inductive cval :=
+  | CVData (n : nat)
+  | CVCallable (c : callable)
+  | CVWrap (c : callable)        (* the sandboxing wrapper of the bound format method c (wrap_str_format) *)
+  | CVUndef.
 
 (* SandboxedEnvironment.is_safe_callable(obj) — the default predicate *)
 Definition is_safe_callable_default (c : callable) : bool := negb (c_unsafe c || c_alters c).
 
 Inductive event :=
   | EvCheck (c : callable) (verdict : bool)     (* is_safe_callable(c) was evaluated *)
-  | EvInvoke (c : callable).                    (* c(...) ran (inside Context.call) *)
+  | EvInvoke (c : callable)                     (* c(...) ran natively (inside Context.call) *)
+  | EvFormat (c : callable).                    (* the sandboxed formatter ran on c's format string instead *)
 
 Inductive outcome := OVal (v : cval) | OSecurityError | OOtherError.
 
@@ -29,6 +36,7 @@ Section Eval.
   Variable policy : callable -> bool.
   (* what the world does: all arbitrary *)
   Variable invoke_result : callable -> list cval -> cval.
+  Variable format_result : callable -> list cval -> cval.
   Variable env : string -> cval.
   Variable attr_of : cval -> string -> cval.
   Variable item_of : list cval -> cval.
@@ -39,12 +47,19 @@ Section Eval.
   (* def call(__self, __context, __obj, *args, **kwargs):
          if not __self.is_safe_callable(__obj):
              raise SecurityError(...)
+         fmt = __self.wrap_str_format(__obj)
+         if fmt is not None:
+             __obj = fmt          # a bound str.format from anywhere is routed through the sandboxed formatter
          return __context.call(__obj, *args, **kwargs) *)
   Definition sandbox_call (f : cval) (args : list cval) : res :=
     match f with
     | CVCallable c =>
-        if policy c then ([EvCheck c true; EvInvoke c], OVal (invoke_result c args))
+        if policy c then
+          if c_format c then ([EvCheck c true; EvFormat c], OVal (format_result c args))
+          else ([EvCheck c true; EvInvoke c], OVal (invoke_result c args))
         else ([EvCheck c false], OSecurityError)
+    | CVWrap c => ([EvFormat c], OVal (format_result c args))
+                                      (* the wrapper is a plain function without markers *)
     | _ => ([], OOtherError)          (* not callable: TypeError / UndefinedError inside Context.call *)
     end.
 
@@ -52,6 +67,7 @@ Section Eval.
   Definition direct_call (f : cval) (args : list cval) : res :=
     match f with
     | CVCallable c => ([EvInvoke c], OVal (invoke_result c args))
+    | CVWrap c => ([EvFormat c], OVal (format_result c args))
     | _ => ([], OOtherError)
     end.
 
@@ -104,4 +120,4 @@ End Eval.
 
 (* extraction interface: the gate alone, with the default or a table-given policy *)
 Definition gate_events (policy_verdict : bool) (c : callable) : res :=
-  sandbox_call (fun _ => policy_verdict) (fun _ _ => CVData 1) (CVCallable c) [].
+  sandbox_call (fun _ => policy_verdict) (fun _ _ => CVData 1) (fun _ _ => CVData 2) (CVCallable c) [].
